@@ -231,7 +231,7 @@ def relayCase (scen csS ssS exS : String) (impl : List String) : String :=
   match parseSizes csS, parseSizes ssS, parseSizes exS, impl with
   | some cs, some ss, some ex, [c2s, s2c] =>
     -- only lengths matter to the comparison: large chunks are scaled down (monotone, applied to every chunk alike)
-    let sc (l : List Nat) := l.map (fun n => if n > 1024 then 1024 + n / 65536 else n)
+    let sc (l : List Nat) := l.map (fun n => if n > 256 then 256 + n / 65536 else n)
     let (cs, ss, ex) := (sc cs, sc ss, sc ex)
     let s := Relay.run {} (relaySchedule scen cs ss ex)
     let tot (l : List Nat) := l.foldl (· + ·) 0
